@@ -244,6 +244,20 @@ def observer_arms(d, T, validated):
             'let mx = ts.iter().cloned().max().map(|t| t.into_inner()); '
             'json!({"k": "ok", "sorted": v.into_iter().map(|t| t.into_inner()).collect::<Vec<_>>().enc(), '
             '"set": set.into_iter().map(|t| t.into_inner()).collect::<Vec<_>>().enc(), "max": mx.enc()}) }), json!({"made": made.enc()})) }' % (T, T))
+    # ---- exhaustive sweeps (thorough tier): every value of a 16-bit integer type / every f32 bit pattern
+    if d["vmode"] in ("std", "none") and ((fam == "int" and d["ty"] in ("i8", "u8", "i16", "u16")) or (fam == "float" and d["ty"] == "f32")):
+        from .names import VARIANT
+        names = ", ".join('"%s".to_string()' % VARIANT[r["k"]] for r in d["val"])
+        ctor = ("%s::try_new(x).map(|t| t.into_inner()).map_err(|e| variant_index(&e))" % T) if d["vmode"] == "std" else ("Ok::<Inner, usize>(%s::new(x).into_inner())" % T)
+        if fam == "int":
+            arms.append(
+                '"sweep" => { let marks: Vec<Inner> = <Vec<Inner> as Dec>::dec(&inp["marks"]); let names: Vec<String> = vec![%s]; '
+                '(sweep::sweep_ints(&marks, (Inner::MIN..=Inner::MAX), &names, |x: Inner| %s), Value::Null) }' % (names, ctor))
+        else:
+            arms.append(
+                '"sweep" => { let marks: Vec<Inner> = <Vec<Inner> as Dec>::dec(&inp["marks"]); let names: Vec<String> = vec![%s]; '
+                'let from = inp["from"].as_u64().unwrap(); let to = inp["to"].as_u64().unwrap(); let th = inp["threads"].as_u64().unwrap() as usize; '
+                '(sweep::sweep_f32(&marks, from, to, th, &names, |x: Inner| %s), Value::Null) }' % (names, ctor))
     # ---- arbitrary (C09, C14)
     if has(d, "Arbitrary"):
         arms.append(
